@@ -38,7 +38,7 @@ pub struct Program {
     pub ops: Vec<Op>,
 }
 
-pub const DBNAMES: [&str; 2] = ["d", "e"];
+pub const DBNAMES: [&str; 2] = ["d", "d2"];
 const KEYS: [&str; 3] = ["ka", "kb", "x"];
 const STRATS: [&str; 3] = ["none", "newer", "arbiter"];
 
